@@ -95,6 +95,30 @@ CHECKS = {
               "request with the real compiler and checks the kernel symbolically (as C01/C02) against the operator's own meaning "
               "(element-wise / scalar broadcast / vector-matrix products), not against the recorded string."),
         design="DESIGN.md §4 C11"),
+    "C06": dict(
+        level="translation_validation", engine="E2-backends + E3-trees + E5-regex",
+        technique="z3-checked agreement of three meanings of the same program: the IR, the C text (parsed by pycparser after gcc -E with the real headers) and the emitted LLVM function (parsed instruction by instruction) - on all small typed expression trees, statement programs and on generated kernels with symbolic inputs; bounded",
+        text=("(1) For every well-typed expression tree (exhaustive depth 1, depth 2 every 12th in quick / all in thorough, special "
+              "precedence/short-circuit/mixed-type shapes) the real printers are run and z3 compares the IR meaning with the meaning of the C "
+              "text and of the LLVM function for all environments in which the IR is safe: value, safety and set of accesses; doubles are compared "
+              "over the rationals and, for bit-identity, structurally (uninterpreted fadd/fsub/fmul). Statement programs (assignment sugar, "
+              "else-if chains, loops, block scope vs hoisting, allocation sizes with n up to 2^31-1) run on the path-based machine through IR, "
+              "C and LLVM front ends. (2) Generated kernels (evaluate; assemble+compute): IR, lifted C and parsed LLVM on the same symbolic "
+              "inputs, raw pos/crd/vals, block lengths and return values compared per path. (3) gcc -fsyntax-only with the published header and "
+              "llvmlite verify for every generated request. (4) Identifier obligations as regular-language queries on the live name regex. "
+              "Every reported difference is first reproduced on the real gcc-compiled C and the LLVM JIT."),
+        design="DESIGN.md §4 C06",
+        note=TRUST + " Trusted additionally: gcc -E, pycparser, llvmlite's verifier, my semantics of the C and LLVM subsets. Known findings F4, F5, F7, F10 are listed in known_findings.json."),
+    "C12": dict(
+        level="other", engine="E5-regex + E3-trees",
+        technique="z3 sequence-theory inclusion queries on the parser's live regexes; z3 comparison of parse-tree meaning with Python's own reading of every sentence up to 4 operands and of deparse for every tree up to depth 2; concrete side checks for the rejection rules",
+        text=("Literal and format-integer spellings: language inclusion L(str(float) | str(int)) within L(parser literal regexes) decided by "
+              "z3; meaning of the tree the real parser builds for every sentence with <= 4 operands compared by z3 (symbolic leaf values) with "
+              "Python's ast.parse reading of the same text; meaning and round trip of deparse for every tree of depth <= 2 over 5 leaves and "
+              "sampled depth-3 spines. 'Parsing never raises on any string' is outside the claim (stated in the evidence); the three rejection "
+              "rules and the format round trip for orders <= 4 are finite concrete cases."),
+        design="DESIGN.md §4 C12",
+        note="Trusted: z3 (sequence theory and NRA on degree <= 4 polynomials, with a grid-lemma fallback), CPython's float repr and ast.parse. Known finding F9 (1e999) is listed in known_findings.json."),
 }
 
 NOT_APPLICABLE = {
@@ -103,7 +127,7 @@ NOT_APPLICABLE = {
     "C14": "thread interleavings of CPython, LLVM MCJIT and the cffi build lock: no engine here explores Python thread schedules symbolically (DESIGN.md §5)",
     "C15": "hash seeds, process boundaries and request histories are not inputs of a function a solver can quantify over; the cache-key clause ranges over a small finite set where a symbolic check degenerates to enumeration (DESIGN.md §5)",
 }
-PENDING = {pid: "check under construction in this round (see DESIGN.md §10 build order); not claimed until it runs quiet on the unchanged tree" for pid in ["C06","C09","C12"]}
+PENDING = {pid: "check under construction in this round (see DESIGN.md §10 build order); not claimed until it runs quiet on the unchanged tree" for pid in ["C09"]}
 
 
 def main():
@@ -139,6 +163,11 @@ def main():
             {"name": "E4-PyProxy", "path": "vlib/pyproxy.py, vlib/checks/c10.py, vlib/checks/c11.py",
              "serves_properties": ["C10", "C11"],
              "kind_free_text": "real Python glue executed on z3-backed proxy values with the replay-forking engine (deterministic value forks)"},
+            {"name": "E2-backends", "path": "vlib/cfront.py, vlib/llfront.py, vlib/backmean.py, vlib/checks/c06.py",
+             "serves_properties": ["C06"],
+             "kind_free_text": "C text (pycparser) and LLVM text front ends on the E1 machine, plus pure symbolic meanings of printed expressions"},
+            {"name": "E5-regex", "path": "vlib/rex.py", "serves_properties": ["C12", "C06"],
+             "kind_free_text": "Python re -> z3 regular expressions; inclusion/intersection queries"},
             {"name": "E3-trees", "path": "vlib/trees.py, vlib/stmts.py, vlib/checks/c07.py",
              "serves_properties": ["C07", "C06", "C12"],
              "kind_free_text": "typed IR expression/statement tree enumeration with symbolic variables; meanings compared by z3"},
